@@ -52,6 +52,7 @@ def main():
     ap.add_argument("--only", default="")
     ap.add_argument("--jobs", type=int, default=4)
     ap.add_argument("--kind", default="all")
+    ap.add_argument("--ids", default="", help="regular expression on the change id")
     a = ap.parse_args()
     only = set(x for x in a.only.split(",") if x)
     todo = []
@@ -72,6 +73,9 @@ def main():
             props = [p for p in props if os.path.exists(os.path.join(here, "checks", p.lower() + ".py"))]
             if props:
                 todo.append((os.path.basename(d), os.path.join(d, "patch.diff"), props, tuple(m.get("also_apply", []))))
+    if a.ids:
+        import re
+        todo = [t for t in todo if re.search(a.ids, t[0])]
     results = {}
     with ThreadPoolExecutor(max_workers=a.jobs) as ex:
         futs = {mid: ex.submit(run_one, mid, patch, props, a.tier, pre) for mid, patch, props, pre in todo}
